@@ -61,6 +61,17 @@ def holdsLeader (vls : List (List Nat × Nat)) : Bool :=
   vls.all (fun vl => vl.1.contains vl.2)
   && vls.all (fun vl => vls.all (fun wl => !sameSet vl.1 wl.1 || decide (vl.2 = wl.2)))
 
+/-- a sequence of elections on one executor: the code keeps no state between calls, so it is the
+    election of every window on its own -/
+def leaderSeq (rngs : List (Nat → List (Nat × Nat))) (ops : List Nat) : List (Option Nat) :=
+  rngs.map fun rng => getLeader rng ops
+
+/-- sequence monitor: the long-lived member and a member without history agree in every window,
+    every leader is an operator, and the same seed gives the same leader again -/
+def holdsLeaderSeq (view : List Nat) (seeds : List Nat) (long fresh : List Nat) : Bool :=
+  long == fresh && long.all view.contains
+  && (seeds.zip long).all (fun a => (seeds.zip long).all (fun b => a.1 != b.1 || a.2 == b.2))
+
 def canonicalOrder : List Nat :=
   [actionRedemption, actionDepositSweep, actionMovedFundsSweep, actionMovingFunds, actionHeartbeat]
 
